@@ -10,7 +10,7 @@
    SRF.__call__ on top of it and of Fourier as state machines; RNG, spectral sampling, spectrum and
    arange are oracles the theorems quantify over; [meq] is CovModel.__eq__. *)
 From Coq Require Import List ZArith Bool.
-From GS Require Import Num Loops Summator_gen C15_KernelSpec C11_Pointwise C11_Main C11_GenState C11_Inst.
+From GS Require Import Num Loops Summator_gen C15_KernelSpec C11_Pointwise C11_Main C11_Incompr C11_GenState C11_Inst.
 Import ListNotations.
 
 (* ------------------------------------------------------------------ Part 1 *)
@@ -87,6 +87,40 @@ Theorem C11_structured_equals_unstructured_fourier :
     = fo_field O sched sf modes z1 z2 (length axes) [point_at (n0 O) axes idx].
 Proof. exact @fo_field_structured. Qed.
 Print Assumptions C11_structured_equals_unstructured_fourier.
+
+(* IncomprRandMeth: the translated sequential kernel summate_incompr (scratch vector proj included) and the
+   vector field built on it are, row d / column i, a function of location i only ([ic_point], [ic_value]);
+   hence the same selection / batching / structured statements hold for every component d *)
+Theorem C11_pointwise_incompr :
+  forall (T : Type) (O : NumOps T) mean_u var n ks z1 z2 dim pts, 0 < dim -> wf_pts dim pts ->
+    summate_incompr O ks z1 z2 (pos_of O dim pts) = map (fun d => map (ic_point O ks z1 z2 dim d) pts) (seq 0 dim)
+    /\ incompr_call O mean_u var n ks z1 z2 (pos_of O dim pts)
+       = map (fun d => map (ic_value O mean_u var n ks z1 z2 dim d) pts) (seq 0 dim).
+Proof. intros. split; [now apply summate_incompr_pointwise | now apply incompr_call_pointwise]. Qed.
+Print Assumptions C11_pointwise_incompr.
+
+Theorem C11_perm_subset_incompr :
+  forall (T : Type) (O : NumOps T) mean_u var n ks z1 z2 dim d pts idx,
+    0 < dim -> d < dim -> wf_pts dim pts -> Forall (fun i => i < length pts) idx ->
+    ic_field O mean_u var n ks z1 z2 dim d (map (fun i => nth i pts []) idx)
+    = map (fun i => nth i (ic_field O mean_u var n ks z1 z2 dim d pts) (n0 O)) idx.
+Proof. exact @ic_field_select. Qed.
+Print Assumptions C11_perm_subset_incompr.
+
+Theorem C11_split_incompr :
+  forall (T : Type) (O : NumOps T) mean_u var n ks z1 z2 dim d batches,
+    0 < dim -> d < dim -> Forall (wf_pts dim) batches ->
+    ic_field O mean_u var n ks z1 z2 dim d (concat batches) = concat (map (ic_field O mean_u var n ks z1 z2 dim d) batches).
+Proof. exact @ic_field_concat. Qed.
+Print Assumptions C11_split_incompr.
+
+Theorem C11_structured_equals_unstructured_incompr :
+  forall (T : Type) (O : NumOps T) mean_u var n ks z1 z2 axes d idx,
+    0 < length axes -> d < length axes -> valid_idx axes idx ->
+    [nth (flat_index (map (@length T) axes) idx) (ic_field O mean_u var n ks z1 z2 (length axes) d (grid_points axes)) (n0 O)]
+    = ic_field O mean_u var n ks z1 z2 (length axes) d [point_at (n0 O) axes idx].
+Proof. exact @ic_field_structured. Qed.
+Print Assumptions C11_structured_equals_unstructured_incompr.
 
 (* ------------------------------------------------------------------ Part 2 *)
 (* after ANY sequence of update / seed / reset_seed / mode_no / call operations the modes are
